@@ -77,6 +77,11 @@ PARENT_MODULES: dict[str, str] = {
         "    def __init__(self, q): ...\n"
         "class Ext(Base):\n"
         "    w: int = 0\n"
+        "class Imp:\n"
+        "    from vfp_missing import __init__\n"
+        "    u: int = 0\n"
+        "class NoInit:\n"
+        "    __init__ = None\n"
     ),
 }
 
@@ -86,7 +91,8 @@ PARENT_REFS: list[tuple[str, str] | None] = (
                              "gt0", "gt1", "gt2", "gt3", "gs", "ty", "rn")]
     + [("classes", ""), ("classes", "K"), ("classes", "Sub"), ("classes", "K.__init__"), ("classes", "Sub.__init__"),
        ("classes", "K.Inner.__init__"), ("classes", "K.meth"), ("classes", "K.prop"), ("classes", "K.tprop"),
-       ("classes", "K.gprop"), ("classes", "K.cprop"), ("classes", "K.x"), ("classes", "K.sm"), ("classes", "Ext")]
+       ("classes", "K.gprop"), ("classes", "K.cprop"), ("classes", "K.x"), ("classes", "K.sm"), ("classes", "Ext"), ("classes", "Imp"),
+       ("classes", "NoInit")]
     # objects built through the API instead of visited: no file path (built-in-like module), plain-string annotations,
     # and one function that has no parent at all ("@" marks objects that are not members of the module)
     + [("api", ""), ("api", "f"), ("api", "C"), ("api", "C.__init__"), ("api", "C.x"), ("api", "C.p"), ("api", "@lonely")]
@@ -108,7 +114,7 @@ def parent_kind(ref) -> str:  # noqa: ANN001
         return "property"
     if last in ("attr", "x"):
         return "attribute"
-    if last in ("K", "Sub", "C", "Ext"):
+    if last in ("K", "Sub", "C", "Ext", "Imp", "NoInit"):
         return "class"
     return "function"
 
@@ -156,7 +162,9 @@ TYPES = ["int", "str", "list[int]", "Optional[Union[int, Tuple[float, float]]]",
          "lambda: 0", "1 +", "", " ", "[", "dict[str,", "int, optional", "\u00dcn\u00ef", "x if y else z", "f'{x}'", "*args",
          "yield", "(yield)", "a := 1", "await x", "...", "None", "tuple[()]", "{a, b}", "{1, 2, 3}", "int, default 3",
          "int, default: 3", "int, default=3", "(int)", "((int))", "int)", "(int", "a:b", "a : b", "\"", "\\", "0x", "not",
-         "list[", "]", "typing.Iterator[int]", "Generator[int, str, None]", "x.y.z", "1", "-1", "a if", "[x for x in y]"]
+         "list[", "]", "typing.Iterator[int]", "Generator[int, str, None]", "x.y.z", "1", "-1", "a if", "[x for x in y]",
+         # characters a docstring can hold through escapes in its literal but that no source text can: lone surrogates, NUL
+         "\ud800", "a\udfff", "\x00", "int\x00"]
 DESCS = ["Description.", "desc", "", " ", "The value: it matters.", "Ends with colon:", "- bullet", "-", "--", ">>> 1 + 1",
          "`code`", "\u00e9t\u00e9 \u2603 \U0001f600", "x" * 80, "a: b: c", ":param x: nested", "Returns:", "Note: inline", "(parenthesised)",
          "tab\there", "``` fence", "# doctest: +SKIP", "<BLANKLINE>", "1.2.0", "ValueError: again"]
